@@ -22,10 +22,16 @@ WEIGHTS = {"get_duration": 0.6, "str": 0.3, "sample": 0.4, "current_phase_ref": 
 
 
 def run_case(ctx, idx, rng, tier):
-    dev, reg = gen.header(rng, max_seq=0.5, p_builtin=0.2)
+    mapp = idx % 7 == 3
+    dev, reg = gen.header(rng, max_seq=0.5, p_builtin=0.2, **({"kind": "layout", "ids": "str"} if mapp else {}))
+    mapping = None
+    if mapp:  # the same kind of history on a mappable register (build is then the way to a concrete sequence)
+        mapping = dict(zip(reg["ids"], reg["trap_ids"]))
+        reg = {"kind": "mappable", "traps": reg["traps"], "ids": reg["ids"]}
     mon = AtomicMonitor(ctx)
     from vmon import objs
     r = prog.Runner(ctx, dev, reg, [mon], env=objs.Env("param"))
+    r.mapping = mapping
     own_var = rng.random() < 0.5
     if own_var:  # a declared (still unused) variable: the sequence stays non-parametrized until a call *succeeds* with it
         r.step({"op": "declare_variable", "name": "cv", "dtype": "int"})
